@@ -188,3 +188,4 @@ reg('C06', 'streams', 'rule_name_sibling')        # composites preserve the name
 reg('C12', 'codec', 'rule_vlq_field_reset')       # redundant continuation digits are legal VLQ: a field ends with the digit state cleared
 reg('C08', 'codec', 'rule_vlq_field_reset')       # the attached map is read by this decoder
 reg('C17', 'panics', 'rule_lookup_unwrap', ('dev', 'release'))   # a name / source index beyond a supplied map's tables must not panic
+reg('C08', 'streams', 'rule_active_cleared')      # a zero-width segment does not stay active past the segment that closes it
